@@ -206,6 +206,9 @@ def real_run(wk, mx, jit, mode, nreq, seed):
             with lock:
                 ev.append(rec)
         allow = 0
+        if nworkers == 1:
+            # the start-up probe of the driver was this worker's first request
+            ev.append({"e": "resp", "ok": True, "pid": pid_id(initial[0])})
         if mode == "seq":
             for i in range(nreq):
                 one("/pid")
